@@ -17,7 +17,8 @@
 EXTENDS TraceLib, CoreExpr
 
 P == INSTANCE Pipeline WITH Ev <- CoreEv, DevLimiterNoComplete <- FALSE, DevPopOldest <- FALSE, DevTruncAll <- FALSE,
-                            DevSwallowBreak <- FALSE, DevSplitLast <- FALSE
+                            DevSwallowBreak <- FALSE, DevSplitLast <- FALSE, DevSortBreakStops <- FALSE, DevSortEmptyNoComplete <- FALSE,
+                            DevSpaceCountsKeyless <- FALSE
 R == INSTANCE Rfc8259 WITH DoubleOf <- TraceDoubleOf
 
 VARIABLE l
